@@ -528,6 +528,22 @@ def _sleep(m, args, ci):
     m.event('timer_created', t.label, sched(m).cur, t.dur, tuple(mutex_held_by(m, sched(m).cur)))
     return t
 
+@I.rx(r'^tokio::time::sleep_until$|^tokio::time::sleep::sleep_until$')
+def _sleep_until(m, args, ci):
+    """`sleep_until(deadline)`: a timer over max(0, deadline - now), with `now` one reading of the environment clock."""
+    d = args[0]
+    d = deref_val(d) if isinstance(d, Ref) else d
+    if m.env is None or not hasattr(m.env, 'now_ns'):
+        raise Unsupported('sleep_until without an environment clock')
+    now = m.env.now_ns(m)
+    left = sym.sub(d.fields[0], now)
+    left = sym.ite(sym.lt(left, 0), 0, left)
+    t = Timer(left, 'timer%d' % len(m.st.timers))
+    t.created_by = sched(m).cur
+    m.st.timers.append(t)
+    m.event('timer_created', t.label, sched(m).cur, t.dur, tuple(mutex_held_by(m, sched(m).cur)))
+    return t
+
 # ----------------------------------------------------------------------------
 # select! / join! support (their expansion is crate MIR and is executed)
 # ----------------------------------------------------------------------------
